@@ -3,7 +3,7 @@
    Model: Model/Ty.v (tord = typeorder with fuel; [Some r] = answered).  Domain predicate: Model/TyDom.v (msym). *)
 From Coq Require Import ZArith List Bool Arith.
 Import ListNotations.
-From OvldV Require Import Model.Order Model.Ty Model.TyDom Model.Codec Proofs.TyEq Proofs.TyMono Proofs.TyOrder Gen.Leaf Proofs.LeafAgree.
+From OvldV Require Import Model.Order Model.Ty Model.TyDom Model.Codec Proofs.TyEq Proofs.TyMono Proofs.TyOrder Gen.Leaf Proofs.LeafAgree Proofs.TyTotal.
 
 Definition Antisym (sub : nat -> nat -> bool) := forall c d, sub c d = true -> sub d c = true -> c = d.
 Definition Trans (sub : nat -> nat -> bool) := forall a b c, sub a b = true -> sub b c = true -> sub a c = true.
@@ -17,6 +17,12 @@ Print Assumptions C12_leaf_opposite.
 Theorem C12_leaf_merge : forall l, merge_src l = merge l.
 Proof. exact merge_agree. Qed.
 Print Assumptions C12_leaf_merge.
+
+(* typeorder is total on the modelled closure: the fuel it is given always suffices (so the "= Some r" hypotheses below
+   are never vacuous) *)
+Theorem C12_total : forall sub hasm chk fresh t1 t2, typeorder sub hasm chk fresh t1 t2 <> None.
+Proof. exact typeorder_total. Qed.
+Print Assumptions C12_total.
 
 (* every type is the same as itself *)
 Theorem C12_refl : forall sub hasm chk fresh n t, tord sub hasm chk fresh (S n) t t = Some SAME.
